@@ -35,7 +35,7 @@ def main():
     failures = []
 
     def fail(what, detail):
-        if len(failures) < 10 and sum(1 for f in failures if f["what"] == what) < 3:
+        if len(failures) < 40 and sum(1 for f in failures if f["what"] == what) < 3:
             failures.append({"what": what, "detail": detail})
     counter = [0]
 
